@@ -229,7 +229,7 @@ Definition check_case (c : (list Q * list Q * nat) * res (option (list nat * lis
                 if sum(f) < len(c['est']) or sum(b) < len(c['ref']):
                     inc('non-finite errors ignored (zero interval)')
                 if c['est'] and c['ref'] and c['est'][0] < c['ref'][0]:
-                    inc('estimate before the first reference beat (reads reference_beats[-1])')
+                    inc('estimate before the first reference beat (first interval)')
                 s = o.get('score')
                 inc('score:nan' if s is None else 'score:1' if s == 1 else 'score:0' if s == 0 else 'score:(0,1)' if 0 < s < 1 else 'score:other')
             for w in set(o['w']):
